@@ -243,6 +243,40 @@ def walk(ctx, a):
             return
 
 
+
+def aliasing(ctx, a):
+    """values handed to the writer as mutable buffers (bytearray) or views (memoryview): writing a value must neither change the caller's
+    object nor depend on it having been written before — the same object written twice encodes twice the same, and reads back"""
+    import der
+    rng = ctx.rng
+    for n in (0, 1, 5, 127, 128, 300):
+        raw = bytes(rng.randrange(256) for _ in range(n))
+        for kind in ("bytearray", "memoryview", "bytes"):
+            for tag in (None, a.ASN1Tag(a.TagClass.CONTEXT_SPECIFIC, 0, False)):
+                val = bytearray(raw) if kind == "bytearray" else (memoryview(raw) if kind == "memoryview" else raw)
+                want1 = der.enc(0, False, 4, raw) if tag is None else der.enc(2, False, 0, raw)
+                inp = {"scenario": "aliasing", "value_type": kind, "length": n, "custom_tag": tag is not None}
+                ctx.count("aliasing:" + kind)
+                try:
+                    w = a.ASN1Writer()
+                    with w.push_sequence() as seq:
+                        seq.write_octet_string(val, tag) if tag is not None else seq.write_octet_string(val)
+                        seq.write_octet_string(val, tag) if tag is not None else seq.write_octet_string(val)
+                    w.write_octet_string(val)
+                    enc = bytes(w.get_data())
+                    direct = [bytes(a._pack_asn1_octet_string(val)) for _ in range(2)]
+                except Exception as e:  # noqa
+                    ctx.violation("the writer fails on a value handed over as a buffer object", inp, canon_exc(e), "an encoding")
+                    return
+                want = der.enc(0, True, 16, want1 + want1) + der.enc(0, False, 4, raw)
+                if bytes(val) != raw:
+                    ctx.violation("writing a value changed the caller's buffer", inp, hx(bytes(val))[:80], hx(raw)[:80])
+                    return
+                if enc != want or direct != [der.enc(0, False, 4, raw)] * 2:
+                    ctx.violation("the same value object written twice does not encode twice the same (minimal DER)", inp, hx(enc)[:120], hx(want)[:120])
+                    return
+
+
 def run(ctx):
     import dpapi_ng._asn1 as a
     prelude.validate(ctx)
@@ -404,6 +438,7 @@ def run(ctx):
                 ctx.violation("reader escapes with an internal error type", {"reader": name, "data": hx(s)}, r, "ValueError or NotEnougData")
     trees(ctx, a, cases)
     walk(ctx, a)
+    aliasing(ctx, a)
     flush()
 
 
